@@ -2105,7 +2105,7 @@ def run(ctx):
         ('writer-pending-flushed-before-end', 1),        # Writer::do_close
         ('writer-item-committed', 1),                    # Writer::operator()(const Item&)
         ('write-guard-reads-own-attribute', 7),          # XML write_meta version/timestamp/uid/user/changeset, node lat/lon
-        ('xml-strict-attribute-never-empty', 4),         # timestamp (node, way, relation), changeset created_at/closed_at, comment date
+        ('xml-strict-attribute-never-empty', 6),         # timestamp (node, way, relation), changeset created_at/closed_at, comment date
         ('writer-flush-entry-points', 2),                # Writer::flush, Writer::ensure_cleanup
         ('reader-decompressor-honours-compression', 3),  # make_decompressor: 2 factory calls + DummyDecompressor
         ('writer-compressor-honours-compression', 1),    # Writer constructor
@@ -2188,6 +2188,9 @@ SELFTESTS = [
     ('blob-header-length-byte-order', 'c01_block.cpp', _st_block),
     ('xml-constant-value-accepted', 'c01_text.cpp', _st_text),
     ('xml-name-dispatched', 'c01_text.cpp', _st_text),
+    ('write-guard-reads-own-attribute', 'c01_text.cpp', _st_text),
+    ('xml-strict-attribute-never-empty', 'c01_text.cpp', _st_text),
+    ('writer-item-committed', 'c01_writer.cpp', _st_writer),
     ('value-range-bound-agrees', 'c01_text.cpp', _st_text),
     ('pbf-block-size-counts-every-serialised-part', 'c01_block.cpp', _st_block),
     ('xml-self-closing-only-when-empty', 'c01_text.cpp', _st_text),
